@@ -519,6 +519,10 @@ def check_rec(lg, cut, flips, line):
         cls = "older-than-intact" if max(idx) < al[0] else "newer-than-log"
         return (cls, "cut %d of %d: recovered savepoint state #%s, expected one of #%s (savepoints end at %s)" % (
             cut, lg.wlen, idx, list(al), [e for e, _ in lg.sps]))
+    post = field(tail, "post")
+    if post not in (None, "ok"):
+        return ("unusable-after-recovery", "cut %d of %d: the store recovered to savepoint state #%s, but one more put + sync + close + reopen gave `%s`" % (
+            cut, lg.wlen, idx, post))
     return None
 
 
@@ -755,6 +759,8 @@ def explore_async(ctx, h, label, nhist, nops, ncuts):
                 prob = ("unreadable", "log cut behind the savepoint ending at %d: recovered store cannot be read: %s" % (c, dig))
             elif dig[2:] not in states:
                 prob = ("not-a-prefix", "log cut behind the savepoint ending at %d: recovered contents %s are the state after no prefix of the operations" % (c, dig[2:]))
+            elif field(tail, "post") not in (None, "ok"):
+                prob = ("unusable-after-recovery", "log cut behind the savepoint ending at %d: recovered, but one more put + sync + close + reopen gave `%s`" % (c, field(tail, "post")))
             ctx.hist("async:" + (prob[0] if prob else "prefix-state"))
             if prob:
                 ctx.fail(dict(kind="oracle", phase="async-savepoint", cls=prob[0]), dict(ops=ops, cut=c, impl=line), prob[1])
